@@ -359,7 +359,8 @@ type c13Pkt struct {
 	Op        int    `json:"arp_operation"`
 	Dst       string `json:"ethernet_destination"` // broadcast | own | other | ipv4-multicast | ipv6-multicast | almost-broadcast | other-local-admin | own-but-last-octet
 	Target    string `json:"target"`               // held-covered | held-uncovered | not-held
-	Malformed string `json:"malformed,omitempty"`  // "", short, ethertype
+	Malformed string `json:"malformed,omitempty"`  // "", short, ethertype, hwlen16, arp-truncated
+	ThenValid bool   `json:"followed_by_a_valid_request,omitempty"`
 	Intf      string `json:"interface"`
 }
 
@@ -389,9 +390,22 @@ func c13PktCheck(res *verifrt.Result, p c13Pkt) {
 		frame = frame[:30]
 	case "ethertype":
 		frame[12], frame[13] = 0x08, 0x00
+	case "hwlen16":
+		frame[18] = 16 // hardware address length claims more bytes than the payload has
+	case "arp-truncated":
+		frame = frame[:14+12]
 	}
 	pc := f.pcs[p.Intf]
 	pc.in = [][]byte{frame}
+	if p.ThenValid {
+		// a frame the responder cannot decode must not end it: the well-formed request behind it is still answered
+		own2 := macEth0
+		if p.Intf == "eth1" {
+			own2 = macEth1
+		}
+		_ = own2
+		pc.in = append(pc.in, arpFrame(bcast, macOther, 0x0806, 1, macOther, net.ParseIP("10.0.0.200"), net.HardwareAddr{0, 0, 0, 0, 0, 0}, net.ParseIP("10.0.0.5")))
+	}
 	var results []string
 	for i := 0; i < 3; i++ {
 		r := f.a.VerifProcessRequest(f.idxs[p.Intf])
@@ -402,6 +416,16 @@ func c13PktCheck(res *verifrt.Result, p c13Pkt) {
 	}
 	out := pc.take()
 	wantReply := p.Malformed == "" && p.Op == 1 && (p.Dst == "broadcast" || p.Dst == "own") && coveredHere
+	if p.ThenValid {
+		n := 0
+		if wantReply {
+			n = 1
+		}
+		if len(out) != n+1 {
+			res.Violate("C13 a well-formed request behind a frame that is not answered gets no answer first="+p.Malformed, fmt.Sprintf("%+v: %d frames written (want %d), results %v", p, len(out), n+1, results), c13Case{Part: "pkt", Packet: &p})
+		}
+		return
+	}
 	res.Outcome(fmt.Sprintf("reply=%v results=%v", len(out) > 0, results))
 	c := c13Case{Part: "pkt", Packet: &p}
 	switch {
@@ -642,11 +666,15 @@ func TestVerif_C13(t *testing.T) {
 		for op := 0; op <= 10; op++ {
 			for _, dst := range []string{"broadcast", "own", "other", "ipv4-multicast", "ipv6-multicast", "almost-broadcast", "other-local-admin", "own-but-last-octet"} {
 				for _, tg := range []string{"held-covered", "held-uncovered", "not-held"} {
-					for _, mal := range []string{"", "short", "ethertype"} {
+					for _, mal := range []string{"", "short", "ethertype", "hwlen16", "arp-truncated"} {
 						for _, intf := range []string{"eth0", "eth1"} {
 							p := c13Pkt{Op: op, Dst: dst, Target: tg, Malformed: mal, Intf: intf}
 							res.Sample(p)
 							c13PktCheck(res, p)
+							if op <= 2 {
+								p.ThenValid = true
+								c13PktCheck(res, p)
+							}
 						}
 					}
 				}
